@@ -2,9 +2,10 @@
 (* Model checking of FetchExec: every Sequence/Parallel tree over <= MaxN     *)
 (* fetches (up to renaming of the fetches), every dependency relation that is  *)
 (* ordered by the tree (at most MaxDeps direct dependencies per fetch), every  *)
-(* assignment of a failure class to the fetches, every interleaving.           *)
+(* assignment of a failure class to at most MaxFaults fetches, every           *)
+(* interleaving.  Ents = the entities a fetch is sent with fault-free.          *)
 EXTENDS FetchExec
-CONSTANTS MaxN, MaxDeps, Classes
+CONSTANTS MaxN, MaxDeps, Classes, MaxFaults, Ents
 
 \* Trees over the ids lo..lo+n-1 up to renaming: the left subtree takes the first k ids.
 \* (Dependencies and faults are enumerated for every id, so nothing is lost by fixing the labelling.)
@@ -22,9 +23,9 @@ Canon(n) == LET T  == Trees(1, n)
 DepChoices(n) == {S \in SUBSET (1..n) : Cardinality(S) <= MaxDeps}
 InstsOf(n, t) ==
   LET P == Prec(t) IN
-  {[n |-> n, tree |-> t, deps |-> d, fault |-> fl, e0 |-> [f \in 1..n |-> {1, 2}]] :
+  {[n |-> n, tree |-> t, deps |-> d, fault |-> fl, e0 |-> [f \in 1..n |-> Ents]] :
      d \in {d \in [1..n -> DepChoices(n)] : \A f \in 1..n : \A g \in d[f] : <<g, f>> \in P},
-     fl \in [1..n -> Classes]}
+     fl \in {fl \in [1..n -> Classes] : Cardinality({f \in 1..n : fl[f] # "ok"}) <= MaxFaults}}
 InstsN(n) == UNION {InstsOf(n, t) : t \in Canon(n)}
 
 MCInit == /\ inst \in UNION {InstsN(n) : n \in 1..MaxN}
